@@ -12,10 +12,11 @@
      - `k_readable`: what select()/poll()/loop.add_reader report (data or EOF),
      - child status and zombies (exited but not joined).
 
-   NOT modelled (C17 is claimed PARTIAL): thread/process scheduling by the OS, the capacity
-   of the pipe buffer (a send never blocks here; the only trace of buffering kept is that a
-   *large* message is written in two steps, so that a child can die in the middle of it),
-   pickling, the asyncio selector and its reader callbacks.  No proofs in this file.          *)
+   The capacity of the pipe buffer enters through the two-step write of a *large* message: the
+   first step fills the buffer, the second is enabled only while the reader drains the pipe
+   (Model/Subproc.v, `parent_receiving`); a child can die in the middle of such a write.
+   NOT modelled (C17 is claimed PARTIAL): thread/process scheduling by the OS, exact byte
+   counts, pickling, the asyncio selector and its reader callbacks.  No proofs in this file.          *)
 From Coq Require Import List Arith Bool.
 From PV Require Import Base.Exn.
 Import ListNotations.
